@@ -412,3 +412,71 @@ Theorem skip_failed_writes_not_prefix_refuted :
 Proof.
   exists [([1; 2], false); ([3; 4], true); ([5; 6], false)]. intros rest H. cbn in H. discriminate.
 Qed.
+
+(* ---------------- the copy loop does not depend on the stats backend ---------------- *)
+Definition striple (p : option nat) (t : bool * nat * sthread) (i : nat) : bool * nat * sthread :=
+  let '(ans, n, a) := t in
+  match i with
+  | 0 => let '(a', sh') := sstep p a {| s_answered := ans; s_copied := n |} in (s_answered sh', s_copied sh', a')
+  | 1 => (true, n, a)
+  | _ => t
+  end.
+Definition sstate (t : bool * nat * sthread) : sshared * list sthread :=
+  let '(ans, n, a) := t in ({| s_answered := ans; s_copied := n |}, [a; SBackend]).
+
+Lemma srun_triple p : forall s t, run _ _ (sstep p) (sstate t) s = sstate (fold_left (striple p) s t).
+Proof.
+  induction s as [|i r IH]; intros [[ans n] a]; [reflexivity|]. cbn [run fold_left]. rewrite <- IH. f_equal.
+  unfold sys_step, sstate, striple. cbn [fst snd]. destruct i as [|[|i]]; cbn [nth_error].
+  - destruct (sstep p a _) as [a' [x y]]. reflexivity.
+  - reflexivity.
+  - assert (En : nth_error (@nil sthread) i = None) by (destruct i; reflexivity). rewrite En. reflexivity.
+Qed.
+
+(* with no report inside the loop: copied + remaining is invariant, and every step of the direction makes progress *)
+Lemma sfold_none m0 : forall s ans n a,
+  match a with SCopy m => n + m = m0 | SCopyDone => n = m0 | SBackend => False end ->
+  let '(ans', n', a') := fold_left (striple None) s (ans, n, a) in
+  match a' with SCopy m => n' + m = m0 | SCopyDone => n' = m0 | SBackend => False end /\
+  (match a' with SCopy m => S m | _ => 0 end <= match a with SCopy m => S m | _ => 0 end - count_occ Nat.eq_dec s 0).
+Proof.
+  induction s as [|i r IH]; intros ans n a Ha; cbn [fold_left count_occ]; [split; [exact Ha|lia]|].
+  destruct i as [|[|i]].
+  - cbn [striple]. destruct a as [[|m]| |]; try contradiction; cbn [sstep s_answered s_copied].
+    + specialize (IH ans n SCopyDone). cbn in IH. destruct (fold_left _ r _) as [[x y] z]. destruct (IH ltac:(lia)) as [I1 I2].
+      split; [exact I1|]. destruct (Nat.eq_dec 0 0); [|congruence]. destruct z; cbn in *; lia.
+    + specialize (IH ans (S n) (SCopy m)). cbn in IH. destruct (fold_left _ r _) as [[x y] z]. destruct (IH ltac:(lia)) as [I1 I2].
+      split; [exact I1|]. destruct (Nat.eq_dec 0 0); [|congruence]. destruct z; cbn in *; lia.
+    + specialize (IH ans n SCopyDone Ha). destruct (fold_left _ r _) as [[x y] z]. destruct IH as [I1 I2].
+      split; [exact I1|]. destruct z; cbn in *; lia.
+  - cbn [striple]. specialize (IH true n a Ha). destruct (fold_left _ r _) as [[x y] z]. destruct IH as [I1 I2].
+    split; [exact I1|]. destruct (Nat.eq_dec 1 0); [discriminate|]. exact I2.
+  - cbn [striple]. specialize (IH ans n a Ha). destruct (fold_left _ r _) as [[x y] z]. destruct IH as [I1 I2].
+    split; [exact I1|]. destruct (Nat.eq_dec (S (S i)) 0); [discriminate|]. exact I2.
+Qed.
+
+(* whatever the stats backend does — answers early, late or never — a direction that gets m+1 steps has copied all m chunks *)
+Theorem copy_independent_of_stats_backend : forall m sched,
+  m + 1 <= count_occ Nat.eq_dec sched 0 ->
+  s_copied (fst (stats_run None m sched)) = m /\ nth_error (snd (stats_run None m sched)) 0 = Some SCopyDone.
+Proof.
+  intros m sched Hn. unfold stats_run.
+  change ({| s_answered := false; s_copied := 0 |}, [SCopy m; SBackend]) with (sstate (false, 0, SCopy m)).
+  rewrite srun_triple. pose proof (sfold_none m sched false 0 (SCopy m) eq_refl) as H.
+  destruct (fold_left (striple None) sched (false, 0, SCopy m)) as [[x y] z]. destruct H as [H1 H2]. cbn [sstate fst snd nth_error s_copied].
+  destruct z as [k| |]; try contradiction; [change (S k <= S m - count_occ Nat.eq_dec sched 0) in H2; lia|]. auto.
+Qed.
+
+(* refuted: a synchronous report after every b-th chunk — with a silent backend the direction never gets past chunk b *)
+Theorem report_in_loop_freezes_refuted : forall n,
+  s_copied (fst (stats_run (Some 2) 5 (repeat 0 n))) <= 2.
+Proof.
+  intros n. unfold stats_run.
+  change ({| s_answered := false; s_copied := 0 |}, [SCopy 5; SBackend]) with (sstate (false, 0, SCopy 5)).
+  rewrite srun_triple.
+  destruct n as [|[|n]]; [cbn; lia|cbn; lia|].
+  assert (Hfix : forall k, fold_left (striple (Some 2)) (repeat 0 k) (false, 2, SCopy 3) = (false, 2, SCopy 3)).
+  { induction k as [|k IH]; [reflexivity|]. cbn [repeat fold_left]. exact IH. }
+  cbn [repeat fold_left]. change (striple (Some 2) (striple (Some 2) (false, 0, SCopy 5) 0) 0) with (false, 2, SCopy 3).
+  rewrite Hfix. cbn. lia.
+Qed.
